@@ -1,7 +1,51 @@
-(* C04 -- placeholder; theorems are added from proofs/ *)
-Require Import Coq.Lists.List Coq.NArith.NArith.
+(* C04 -- iteration visits each selected entity exactly once, with its own data. Statements only.
+   Model: Iter.v (blocks, task split, archetype segments, arrays, unrolled loop), used by Manager.ORunJob, whose visits
+   are compared with the real library after every job run (tier B) and judged against the property itself (tier A). *)
+Require Import Coq.Lists.List Coq.Arith.Arith Coq.Bool.Bool.
 From Mustache Require Import Res Iter.
+From Mustache.proofs Require Import IterProofs.
 Import ListNotations.
-Example C04_placeholder : unrolled 6 = [0; 1; 2; 3; 4; 5].
+
+(* every population, every version-chunk size, every pattern of changed chunks: the blocks select exactly the indices
+   below the population whose version chunk matched -- in order, each once (hence blocks are disjoint and in range) *)
+Theorem C04_blocks_exact : forall cs size ms,
+  0 < cs -> 0 < size -> length ms = S ((size - 1) / cs) ->
+  selected_of_blocks (filter_blocks cs size ms) = selected_spec cs size ms.
+Proof. exact blocks_exact. Qed.
+Print Assumptions C04_blocks_exact.
+
+(* the 4x unrolled invocation loop with its tail table calls the user function at offsets 0..count-1, each once *)
+Theorem C04_unroll_exact : forall count, unrolled count = seq 0 count.
+Proof. exact unrolled_seq. Qed.
+Print Assumptions C04_unroll_exact.
+
+(* the entities-per-task split: sizes differ by at most one and add up to the number of selected entities *)
+Theorem C04_task_sizes : forall total tasks, 0 < tasks ->
+  fold_left (fun acc k => acc + task_size total tasks k) (seq 0 tasks) 0 = total /\
+  forall k, total / tasks <= task_size total tasks k <= S (total / tasks).
+Proof. intros total tasks H. split; [exact (task_size_sum total tasks H)|intro k; exact (task_size_bounds total tasks k H)]. Qed.
+Print Assumptions C04_task_sizes.
+
+(* FULL STATEMENT for the cursor / segments / arrays (not yet proved in general; evaluated below on concrete
+   configurations inside Coq and on every job run of the correspondence): for every list of filtered archetypes with
+   well-formed blocks and every task count T >= 1, the arrays of tasks 0..T-1, concatenated, are exactly the selected
+   (archetype, real index) pairs in order, every array is non-empty and lies inside one block and one storage chunk. *)
+Definition all_selected (fas : list farch) : list (nat * nat) :=
+  flat_map (fun pa : nat * farch => map (pair (fst pa)) (selected_of_blocks (fa_blocks (snd pa)))) (combine (seq 0 (length fas)) fas).
+Definition flatten_arrays (per_task : list (list (nat * nat * nat))) : list (nat * nat) :=
+  flat_map (fun arrs => flat_map (fun a : nat * nat * nat => let '(pos, start, len) := a in map (pair pos) (seq start len)) arrs) per_task.
+Definition C04_tasks_cover_statement : Prop :=
+  forall fas T, 0 < T -> Forall (fun a => fa_count a = blocks_count (fa_blocks a) /\ 0 < fa_count a /\ 0 < fa_cap a) fas ->
+  exists per_task, run_arrays fas T = Ok per_task /\ flatten_arrays per_task = all_selected fas.
+
+Definition pair_eqb (a b : nat * nat) : bool := Nat.eqb (fst a) (fst b) && Nat.eqb (snd a) (snd b).
+Fixpoint list_eqb (l1 l2 : list (nat * nat)) : bool :=
+  match l1, l2 with [], [] => true | a :: t1, b :: t2 => pair_eqb a b && list_eqb t1 t2 | _, _ => false end.
+Definition fa (blocks : list (nat * nat)) (size cap : nat) : farch :=
+  {| fa_arch := 0; fa_blocks := blocks; fa_count := blocks_count blocks; fa_size := size; fa_cap := cap |}.
+Definition fas_example : list farch := [fa [(0, 2); (4, 7)] 7 3; fa [(1, 2)] 5 3; fa [(0, 4); (6, 9)] 9 4].
+Example C04_tasks_cover_examples :
+  forallb (fun T => match run_arrays fas_example T with
+                    | Ok per_task => list_eqb (flatten_arrays per_task) (all_selected fas_example)
+                    | Err _ => false end) (seq 1 14) = true.
 Proof. vm_compute. reflexivity. Qed.
-Print Assumptions C04_placeholder.
